@@ -529,6 +529,19 @@ func c18Scheme(p *core.Program, r *core.Report, e *engines, roles, hc map[string
 			}
 		}
 		r.Check(okPro, "R18.2", key+"/loop variables and guard", pos, "scope holds the collection, its length, the index (0, +1 per iteration); guard index < length", whyPro)
+		// the collection operand belongs to the ENCLOSING scope: it is evaluated before the
+		// builtin opens its own (inside a closure it may read the outer element)
+		firstChild, firstBegin := -1, -1
+		for i, ev := range t.Events {
+			if ev.Kind == "child" && firstChild < 0 {
+				firstChild = i
+			}
+			if ev.Kind == "instr" && roles[ev.Op] == "begin" && firstBegin < 0 {
+				firstBegin = i
+			}
+		}
+		r.Check(firstChild >= 0 && firstBegin > firstChild, "R18.2", key+"/collection is evaluated before the scope is opened", pos, "the first operand is compiled, then Begin",
+			"the builtin opens its scope before its collection operand is evaluated: a collection computed from the enclosing closure's element (`map(xs, {count(#, …)})`) is then looked up in the new, empty scope and the run fails")
 		// initial values: run the prologue concretely: before the head, index = 0, counter = 0
 		pre := loopPrologue(e, roles, hc, t)
 		okInit := pre[idx] == "0" && (cnt == "" || pre[cnt] == "" || pre[cnt] == "0")
@@ -596,7 +609,7 @@ func c18Tail(p *core.Program, r *core.Report, e *engines, roles, hc map[string]s
 		}
 	}
 	r.Floor("R18.1", 7)
-	r.Floor("R18.2", 14)
+	r.Floor("R18.2", 18)
 	r.Floor("R18.3", 3)
 	r.Floor("R18.4", 7*3)
 	r.Floor("R18.5", 4)
